@@ -277,6 +277,17 @@ Theorem C08_src_fwd_shift : forall cfg l r t s0 left, pos_rows l -> 0 <= left ->
   = lift_shift (fwd_shift cfg l r t s0 left).
 Proof. exact src_fwd_shift_eq. Qed.
 
+(* ---- source-text tie for the recursive pass (gen/SrcPass.v: ForwardScheduler.__forward_pass / BackwardScheduler.__backward_pass translated from schedule.py on every run;
+   Sched/SrcPassEquivF.v / SrcPassEquivB.v relates it to the model's pass for every input, Sched/SrcPassProps.v transports the theorems):
+   what follows is about the TRANSLATED SOURCE called once per root as calc does ([src_roots_fold]) after calc's pre-checks. ---- *)
+From PJ Require Import gen.SrcPass Sched.SrcPassRel Sched.SrcPassEquivF Sched.SrcPassEquivB Sched.SrcPassProps.
+
+Theorem C08_src_forward_pass : forall cfg w ds l cl, isolated_ok w = true -> no_future_ends w (now cfg) = true ->
+  src_roots_fold src_fwd_pass cfg w (roots w) = Ok (ds, l, cl) ->
+  cap_nonneg cfg -> WFin w -> c08_preorder w -> c08_members_first_b w = true ->
+  c08_b cfg w (obs_of w (src_sst (ds, l, cl))) = true.
+Proof. exact src_fwd_c08_oracle. Qed.
+
 Print Assumptions C08_tight.
 Print Assumptions C08_tight_leaves.
 Print Assumptions C08_encode.
@@ -302,3 +313,4 @@ Print Assumptions C08_isolated_is_unrelated.
 Print Assumptions C08_set_example.
 Print Assumptions C08_src_fwd_nearest.
 Print Assumptions C08_src_fwd_shift.
+Print Assumptions C08_src_forward_pass.
